@@ -592,12 +592,26 @@ fn extra_types(sum: &mut Summary) {
         let (n, d) = (ZNEW.load(Ordering::SeqCst), ZDROP.load(Ordering::SeqCst));
         if r.is_err() || n != d { sum.violation(format!("{{\"what\":\"vec extra-types battery zero-sized elements with a destructor (drains dropped before being consumed)\",\"observed\":{},\"expected\":\"created == dropped\"}}", jstr(&format!("created {} dropped {} {:?}", n, d, r.err())))); }
     }
+    {
+        let before = alloc::snap().errors;
+        let r = quiet_catch(AssertUnwindSafe(|| { let mut check = |name: &str, ok: bool, detail: String| { if !ok { panic!("{}: {}", name, detail); } }; large_collects(&mut check); }));
+        sum.evaluations += 3;
+        if r.is_err() || alloc::snap().errors != before { sum.violation(format!("{{\"what\":\"vec extra-types battery: large collects\",\"observed\":{},\"expected\":\"same as Vec, clean allocator\"}}", jstr(&format!("{:?} / allocator monitor: {}", r.err(), alloc::error_detail())))); }
+    }
     // droppable prefix: written once at construction, dropped once with the vector, never dropped uninitialised
     let before = alloc::snap().errors;
     { let mut v: ThinVec<u32, Pfx> = ThinVec::new(); for i in 0..100 { v.push(i); } assert_eq!(*v.prefix().0, 7); let w = v.split_off(50); assert_eq!(*w.prefix().0, 7); }
     sum.evaluations += 1;
     let (n, d) = (NEW.load(Ordering::SeqCst), DROPPED.load(Ordering::SeqCst));
     if n != d || alloc::snap().errors != before { sum.violation(format!("{{\"what\":\"vec ThinVec droppable prefix\",\"observed\":{},\"expected\":\"created == dropped, intact\"}}", jstr(&format!("created {} dropped {} allocator {}", n, d, alloc::error_detail())))); }
+}
+
+/// collecting many elements from an honest iterator with an exact hint (buffers beyond any internal preallocation cap); the
+/// allocator monitor's red zones see a write past the block
+fn large_collects(check: &mut dyn FnMut(&str, bool, String)) {
+    { let t: ThinVec<u64, Reserved> = (0..9000u64).collect(); check("ThinVec collect of 9000 u64", t.len() == 9000 && t.as_slice().iter().copied().eq(0..9000u64), format!("len {}", t.len())); }
+    { let t: ThinVec<u8, Reserved> = (0..70_000u32).map(|x| x as u8).collect(); check("ThinVec collect of 70000 u8", t.len() == 70_000 && t.as_slice()[69_999] == (69_999u32 as u8), format!("len {}", t.len())); }
+    { let t: ThinVec<String, Reserved> = (0..3000).map(|i| i.to_string()).collect(); check("ThinVec collect of 3000 String", t.len() == 3000 && t.as_slice()[2999] == "2999", format!("len {}", t.len())); }
 }
 
 /// The less travelled parts of the vector API against Vec (content, order, panics), with reference-counted elements so that a
@@ -688,10 +702,7 @@ fn api_battery(sum: &mut Summary) {
             let after_s: Vec<u32> = sv.iter().map(|r| **r).collect();
             check(&format!("{}::drain(1..5) then {:?}, {:?}, {:?}", if kind == 0 { "ThinVec" } else { "InlineVec" }, a, b, c), log_s == log_h && len_s == len_h && after_s == after_h, format!("yielded {:?} lens {:?} left {:?}; Vec: {:?} {:?} {:?}", log_h, len_h, after_h, log_s, len_s, after_s));
         } } } }
-        // collecting many elements from an honest iterator with an exact hint (buffers beyond any internal preallocation cap)
-        { let t: ThinVec<u64, Reserved> = (0..9000u64).collect(); check("ThinVec collect of 9000 u64", t.len() == 9000 && t.as_slice().iter().copied().eq(0..9000u64), format!("len {}", t.len())); }
-        { let t: ThinVec<u8, Reserved> = (0..70_000u32).map(|x| x as u8).collect(); check("ThinVec collect of 70000 u8", t.len() == 70_000 && t.as_slice()[69_999] == (69_999u32 as u8), format!("len {}", t.len())); }
-        { let t: ThinVec<String, Reserved> = (0..3000).map(|i| i.to_string()).collect(); check("ThinVec collect of 3000 String", t.len() == 3000 && t.as_slice()[2999] == "2999", format!("len {}", t.len())); }
+        large_collects(&mut check);
         // the Copy twins
         let data: Vec<u8> = (0..12).collect();
         let mut ic: InlineVec<u8, 16> = InlineVec::from_slice_copy(&data[..5]); let mut vc: Vec<u8> = data[..5].to_vec();
